@@ -139,7 +139,7 @@ func (o *c04Obs) onNew(kind string, s *rtmp.ServerSession) error {
 	if o.policy == 'R' {
 		verdict = "r"
 	}
-	o.ev = append(o.ev, fmt.Sprintf("%s:%s:%s:%s:%s:%s", kind, c04Str([]byte(s.AppName())), c04Str([]byte(s.StreamName())),
+	o.ev = append(o.ev, fmt.Sprintf("%s:%s:%s:%s:%s:%s:%s", kind, s.GetStat().BaseType, c04Str([]byte(s.AppName())), c04Str([]byte(s.StreamName())),
 		c04Str([]byte(s.RawQuery())), c04Str([]byte(s.Url())), verdict))
 	if o.policy == 'R' {
 		return errC04Reject
